@@ -187,12 +187,30 @@ def _init_worker(pid):
     sys.stdout = devnull   # library prints are discarded in workers
 
 
+def call_case(check, case):
+    """run_case with the process time zone owned by the harness: UTC0 unless the case carries a 'tz' (POSIX TZ string), in
+    which case it is set around the call and stamped on the replay case of every failure."""
+    tz = case.get('tz') if isinstance(case, dict) else None
+    os.environ['TZ'] = tz or 'UTC0'
+    time.tzset()
+    try:
+        r = check.run_case(case)
+    finally:
+        os.environ['TZ'] = 'UTC0'
+        time.tzset()
+    if tz:
+        for f in r.get('failures', []):
+            if isinstance(f.get('case'), dict) and 'tz' not in f['case']:
+                f['case'] = dict(f['case'], tz=tz)
+    return r
+
+
 def _run_one(args):
     idx, case = args
     t0 = time.time()
     try:
         _reset_library_state()
-        r = _CHECK.run_case(case)
+        r = call_case(_CHECK, case)
     except Exception as e:  # a crash of the harness itself is a harness error, not a violation
         r = result(failures=[], digest='EXC')
         r['harness_error'] = f'{type(e).__name__}: {e}\n{traceback.format_exc()[-1500:]}'
@@ -233,7 +251,7 @@ def replay(pid, path):
     rec = json.load(open(path))
     import csep  # noqa: F401
     _reset_library_state()
-    r = check.run_case(rec['case'])
+    r = call_case(check, rec['case'])
     sigs = [f['signature'] for f in r['failures']]
     if rec['signature'] in sigs:
         f = [f for f in r['failures'] if f['signature'] == rec['signature']][0]
